@@ -152,6 +152,10 @@ def run(ctx, rep):
     cursor(ctx, rep)
     wiresig(ctx, rep)
     uniqueid(ctx, rep)
+    from ..predsig import run_predsig
+    rep.rules_text.append("PREDSIG: for every prediction scheme with an encoder and a decoder class, the backward slice of the predicted value handed to the transform (ComputeCorrection / ComputeOriginalValue) uses the same set of (operation, width[, constant]) on both sides, and every shared helper in the decoder's slice is in the encoder's")
+    n_ps = run_predsig(ctx, rep)
+    rep.floor("encoder/decoder prediction-scheme pairs compared", n_ps, 4)
     from ..stubreach import run_stubreach
     rep.rules_text.append("STUBREACH: a function the code base declares must-not-be-called (`DRACO_DCHECK(false); return <dummy>;`) is not reachable from the writer: no construction site, in Reach(encode), of a class whose methods call such a stub is feasible under the values its factory parameter can take (backward value flow over callers: constants, parameters with the values excluded by the branches passed, constants a callee can return)")
     n_stub, n_sites = run_stubreach(ctx, rep)
@@ -204,7 +208,8 @@ def g1justify(ctx, rep, only_class=None, floor=10):
     n = 0
     for fn in eng.scope:
         is_ctl = fn.name.startswith("verif_control::")
-        if only_class and fn.cls != only_class and not is_ctl:
+        if only_class and not is_ctl and not (
+                fn.cls in only_class if isinstance(only_class, (set, tuple, list)) else fn.cls == only_class):
             continue
         for g in find_guards(eng, fn):
             key = (fn.base, g[4], fn.site(g[0].tloc or ""))
